@@ -11,7 +11,7 @@ from ._wcommon import (ASSUMPTIONS, COMPONENTS_REAL, COMPONENTS_STUB, Hist, Viol
 from ._wcommon import abstract_states  # noqa: F401,E402
 
 ID = "C06"
-RUNS = {"quick": 8000, "thorough": 250000}
+RUNS = {"quick": 10000, "thorough": 250000}
 BUDGET_S = {"quick": 60, "thorough": 900}
 RULE = ("seeded scenario scripts with 2..10 overlapping deliveries per worker; every task and every dependency (plain, coroutine, "
         "generator, async generator, context manager, async context manager; cached or use_cache=False; nested to depth 3) echoes "
